@@ -11,6 +11,8 @@
 (*   {"ev":"begin","id":i,"op":"req"|"resp"|"err",...} / {"ev":"end","id":i}    *)
 (*        operations running concurrently; TLC places each one's linearization  *)
 (*        point between its begin and end (Lin); requests judged in mode conc.  *)
+(*   {"ev":"storm","ts":[ids],"qs":[..],"adm":[ids]}  simultaneous requests of     *)
+(*        many goroutines on one flow; adm = the ids that were admitted           *)
 (* Expiry is not observable: TLC places Expire steps wherever the spec allows.  *)
 EXTENDS TraceLib, Integers, FiniteSets
 
@@ -48,6 +50,9 @@ TReq == Consume("req") /\ pend = {} /\ P!Request(Ev.t, Ev.qs, Ev.early, Ev.out, 
 TResp == Consume("resp") /\ pend = {} /\ P!Response(Ev.t) /\ UNCHANGED <<pend, done>>
 TErr == Consume("err") /\ pend = {} /\ P!ProxyError(Ev.t) /\ UNCHANGED <<pend, done>>
 
+\* a storm of simultaneous requests on one flow, recorded as one event (which ids were admitted)
+TStorm == Consume("storm") /\ pend = {} /\ P!Storm(SeqSet(Ev.ts), Ev.qs, SeqSet(Ev.adm)) /\ UNCHANGED <<pend, done>>
+
 \* reclaiming an expired slot: only when it changes what the next events may do (keeps the search small)
 TExpire == \E q \in Quota : \E t \in inflight[q] : P!Expire(t, q) /\ UNCHANGED <<l, pend, done>>
 
@@ -69,7 +74,7 @@ TEnd ==
     /\ done' = done \ {Ev.id}
     /\ UNCHANGED <<now, inflight, deadline, last, pend>>
 
-TNext == TReset \/ TAdv \/ TReq \/ TResp \/ TErr \/ TExpire \/ TBegin \/ TLin \/ TEnd
+TNext == TReset \/ TAdv \/ TReq \/ TStorm \/ TResp \/ TErr \/ TExpire \/ TBegin \/ TLin \/ TEnd
 
 TraceSpec == TInit /\ [][TNext]_tvars
 
